@@ -146,7 +146,7 @@ func TestVerifC01Random(t *testing.T) {
 			t.Errorf("replay: %v", err)
 		}
 	}
-	if only {
+	if only || t.Failed() {
 		return
 	}
 	defer rec.Commit(tRandom)
@@ -200,7 +200,7 @@ func TestVerifC01Enum(t *testing.T) {
 			t.Errorf("replay: %v", err)
 		}
 	}
-	if only {
+	if only || t.Failed() {
 		return
 	}
 	idx := 0
